@@ -39,6 +39,10 @@ def HC(name, macro, what, nl_q, nl_t, tq, tt):
                       'thorough': [{'defines': ['NLAYERS=%d' % nl_t, 'HB=16'], 'bound': 'Merkle paths of 0..%d layers, 16 symbolic bytes per hash value' % nl_t, 'timeout': tt}]}}
 
 
+_hk = HC('h_sigkey', 'MODE_ATV', 'checkATV with the REAL secp256k1::publicKeyFromVbk on malformed public keys (wrong length / format byte / empty) whose address derivation verdict is arbitrary:', 1, 1, 200, 400)
+_hk['caught_throws'] = True; _hk['defines'] = ['MODE_ATV', 'REAL_KEYPARSE']; _hk['covers'] = [3, 10, 11, 12, 13, 14]; _hk['repo_srcs'] = SRCS + ['src/pop/crypto/secp256k1.cpp']
+_hk['obligations'] = ['checkATV on an ATV whose public key is malformed (8, 33, 65, 88 or 0 bytes with a wrong format byte) returns an INVALID state whatever the other facts are - it never throws past the API although the sender address may have been crafted to derive from that key.  (The engine does not interpret catch handlers: every distinct throw site it reaches is replayed natively on the solver\'s model; a throw that escapes the native checkATV is the violation, one that the code under test catches is accepted)']
+HARNESSES += [_hk]
 HARNESSES += [
     HC('h_checkatv', 'MODE_ATV', 'checkATV (real, including checkVbkTx, checkPublicationData, checkSignature, checkMerklePath, VbkMerklePath::calculateMerkleRoot)', 3, 4, 280, 1500),
     HC('h_checkvtb', 'MODE_VTB', 'checkVTB (real, including checkVbkPopTx, checkBitcoinTransactionForPoPData, checkBtcBlocks, checkSignature, both Merkle path types)', 2, 3, 280, 1500),
